@@ -82,6 +82,9 @@ func init() {
 			return uniqueFn(fns, func(f *Fn) bool { return hasCall(c, f.SSA, Call("sync.Map).Load")) })
 		}},
 		"dagsync.handle": {"dagsync", "handler.handle", func(c *Ctx, fns []*Fn) *ssa.Function {
+			if h := c15HandleFn(c); h != nil {
+				return h
+			}
 			return uniqueFn(fns, func(f *Fn) bool { return hasCall(c, f.SSA, Invoke("dagsync.Syncer.Sync")) })
 		}},
 		"dagsync.factory": {"dagsync", "handler.makeSyncer", func(c *Ctx, fns []*Fn) *ssa.Function {
